@@ -1,5 +1,6 @@
 """C12 - persisted objects survive serialization (structural part)."""
 from engine import *
+import linforms
 import parsepos
 import guards
 import ordimpls
@@ -570,3 +571,4 @@ RULES.append(('12.k', 'TLV enum legacy getters select on the variant only', r12k
 RULES.append(('12.o', 'hand-written eq / cmp / partial_cmp / hash impls (the library\'s own equality of monitors, claim packages, commitment transactions, graph entries): same field on both sides, reviewed direction, no reviewed key lost, hash within eq (rules/ordimpls.py)', lambda F: ordimpls.for_property(F, 'C12', '12.o')))
 RULES.append(('12.G', 'guard census: no reviewed call of a workspace function and no reviewed mutation of a stored collection gained a controlling branch condition (an added `&& cond`, early return / continue, more specific match arm in front of an act); counts per call site, name free (rules/guards.py)', lambda F: guards.for_property(F, 'C12', '12.G')))
 RULES.append(('12.I', 'parse-position independence: in every function reading from a reader, no stream read is skipped under a condition computed from local state (self, another argument) while parsing goes on - the bytes a persisted-object reader consumes depend on the stored bytes alone (rules/parsepos.py)', lambda F: parsepos.rule(F, '12.I', lambda n, r: re.search(r'lightning/src/', r['file']) is not None and 'ser_macros' not in r['file'], 40, 400)))
+RULES.append(('12.K', 'constant census of linear forms: every comparison (normalised to sum >= K over name-free atoms, a comparison and its negation being one form) and every maximal arithmetic expression of a reviewed function keeps its coefficients and its constant - a dropped or added `+ 1` / `- 1`, `<` for `<=` inside a computed bound, a scale factor applied twice or not at all, swapped operands of a comparison (rules/linforms.py; shapes that appear or disappear are not judged, the guard / arithmetic censuses judge those)', lambda F: linforms.for_property(F, 'C12', '12.K')))
